@@ -8,6 +8,7 @@ import (
 	"fmt"
 	"io"
 	"math/big"
+	"math/bits"
 	"os/exec"
 	"strings"
 	"time"
@@ -568,12 +569,31 @@ func (s *Solver) intExpr(t *Term) string {
 			a, b = b, a
 		}
 		if !b.IsConst() {
-			if (t.Op == OpOr || t.Op == OpXor) && ^s.knownZero(a)&^s.knownZero(b)&mask(T.W) == 0 {
-				// no common one-bit possible: or/xor is addition (no carry, no overflow)
-				if T.S {
-					return s.fromUnsigned(fmt.Sprintf("(+ %s %s)", s.unsignedRep(a), s.unsignedRep(b)), T)
+			// symbolic-by-symbolic bit operation: possible when the operands can share a one only in a
+			// few statically known positions m:  a&b = sum over m of bit products;  a|b = a+b-(a&b);
+			// a^b = a+b-2(a&b)   (all on the unsigned representations; no carries are lost)
+			m := ^s.knownZero(a) & ^s.knownZero(b) & mask(T.W)
+			if bits.OnesCount64(m) <= 8 {
+				ua, ub := s.unsignedRep(a), s.unsignedRep(b)
+				parts := []string{"0"}
+				for k := uint(0); k < uint(T.W); k++ {
+					if m>>k&1 == 0 {
+						continue
+					}
+					p2 := pow2(k).String()
+					parts = append(parts, fmt.Sprintf("(ite (and (= (mod (div ua! %s) 2) 1) (= (mod (div ub! %s) 2) 1)) %s 0)", p2, p2, p2))
 				}
-				return fmt.Sprintf("(+ %s %s)", s.ref(a), s.ref(b))
+				and := "(+ " + strings.Join(parts, " ") + ")"
+				var body string
+				switch t.Op {
+				case OpAnd:
+					body = and
+				case OpOr:
+					body = fmt.Sprintf("(- (+ ua! ub!) %s)", and)
+				default:
+					body = fmt.Sprintf("(- (+ ua! ub!) (* 2 %s))", and)
+				}
+				return s.fromUnsigned(fmt.Sprintf("(let ((ua! %s) (ub! %s)) %s)", ua, ub, body), T)
 			}
 			return s.viaBV(t)
 		}
